@@ -195,6 +195,9 @@ func (c *Ctx) declareFun(name string, args []Sort, ret Sort) {
 		c.decls = append(c.decls, "(declare-fun gstr.fromByte (Int) Str)")
 		c.declared["gstr.fromByte"] = SStr
 		c.asserts = append(c.asserts, &Assertion{Seq: 0, Always: true, Text: "(forall ((ba (Array Int Int)) (bo Int)) (! (= (gbytes.str ba bo 1) (gstr.fromByte (select ba bo))) :pattern ((gbytes.str ba bo 1))))"})
+		// lengths: a one-byte string has length 1; the content of n bytes has length n
+		c.asserts = append(c.asserts, &Assertion{Seq: 0, Always: true, Text: "(forall ((bx Int)) (! (= (gstr.len (gstr.fromByte bx)) 1) :pattern ((gstr.fromByte bx))))"})
+		c.asserts = append(c.asserts, &Assertion{Seq: 0, Always: true, Text: "(forall ((ba (Array Int Int)) (bo Int) (bn Int)) (! (=> (>= bn 0) (= (gstr.len (gbytes.str ba bo bn)) bn)) :pattern ((gbytes.str ba bo bn))))"})
 		// byte j of the content of a byte slice is element j of the slice
 		if _, ok := c.declared["gstr.at"]; !ok {
 			c.decls = append(c.decls, "(declare-fun gstr.at (Str Int) Int)")
